@@ -42,6 +42,18 @@ def req_lines(kind):
         # per-segment scratch data left behind by a run with more segments (okOdd has three)
         return F.lines(F.override(F.base(2, 2, 9, 4, (3, 2, 1)), {'Number of Segments': '2', 'Gradient 1': '60', 'Gradient 2': '90', 'Thickness 1': '1',
                                                                 'Reservoir Depth': '5', 'Maximum Temperature': '200'}))
+    wide = {'okChill': (2, 2, 5, 2), 'okHP': (1, 2, 6, 4), 'okCHP42': (3, 42, 2, 3), 'okMPF': (1, 1, 1, 1), 'okLHS': (2, 52, 4, 2), 'okFlash': (1, 1, 3, 4)}
+    if kind in wide:       # thorough only: one request per module family not yet in the menu (plant classes, reservoir classes, economic models)
+        e, u, pl, r = wide[kind]
+        return F.lines(F.base(e, u, pl, r, (3, 2, 1)))
+    if kind == 'okDH2':    # district heating with the demand computed from heating degree days
+        return F.lines(F.override(F.base(2, 2, 7, 4, (3, 2, 1)), {'District Heating Demand Option': '2', 'Temperature File Name': F.demand_csv(), 'Temperature Data Column Number': '2',
+                                                                'Number of Housing Units': '12000', 'Constant Anchor Demand': '3', 'US Census Division': '5'}))
+    if kind == 'okSDAC':
+        return F.lines(F.override(F.base(1, 1, 2, 4, (3, 2, 1)), {'Do S-DAC-GT Calculations': 'True'}))
+    if kind in ('okSUTRA', 'okAGS'):
+        from vf.checks import c07
+        return c07.file_lines(c07.ex('SUTRAExample1.txt' if kind == 'okSUTRA' else 'Wanju_Yuan_Closed-Loop_Geothermal_Energy_Recovery.txt'))
     if kind == 'okS':      # closed loop (SBT): other module classes, own numerical kernels
         return F.lines(F.sbt_base(3, 1, 2, (4, 2, 1), 5))
     if kind == 'failX':    # aborts through a bare sys.exit() inside the core (user-provided temperature profile that does not exist)
@@ -61,7 +73,9 @@ def req_lines(kind):
 EVENTS_QUICK = ['okE/c', 'okH/c', 'okA/c', 'okD/c', 'okU/c', 'okX/c', 'okDef/c', 'okOdd/c', 'okCap2/c', 'okS/c', 'hip', 'failR/c', 'failC/c', 'failP/c', 'failX/c', 'rewrite/c',
                 'rewrite:failX/c', 'rewrite@same/c', 'rewrite@older/c', 'okE/n']
 EVENTS_L3 = ['okOdd/c', 'okDef/c', 'okCap2/c', 'okU/c', 'failX/c', 'rewrite/c', 'rewrite:failX/c']
+WIDE_KINDS = ['okChill', 'okHP', 'okCHP42', 'okMPF', 'okLHS', 'okFlash', 'okDH2', 'okSDAC', 'okSUTRA', 'okAGS']
 EVENTS_THOROUGH = EVENTS_QUICK + ['okD2/c', 'failR/n', 'okH/n', 'rewrite:failR/c', 'okDef/n', 'rewrite:failX@same/c', 'rewrite@same/n']
+EVENTS_WIDE = EVENTS_THOROUGH + [k + '/c' for k in WIDE_KINDS]      # thorough: all histories of length <= 2 over this menu
 
 
 def strip(text):
@@ -227,7 +241,7 @@ def task(payload):
 
 def plan(tier, seed):
     events = EVENTS_QUICK if tier == 'quick' else EVENTS_THOROUGH
-    kinds = sorted({e.partition('/')[0] for e in events if not e.startswith('rewrite')} | {'okE', 'okH', 'failX', 'failR'})
+    kinds = sorted({e.partition('/')[0] for e in (EVENTS_WIDE if tier == 'thorough' else events) if not e.startswith('rewrite')} | {'okE', 'okH', 'failX', 'failR'})
     outs = compute_references(kinds)
     # (iii) references agree across hash seeds and starting directories
     plan.ref_disagreements = []
@@ -240,6 +254,8 @@ def plan(tier, seed):
     H += [h for h in histx.histories(EVENTS_L3, 3) if len(h) == 3]
     if tier == 'thorough':
         H = list(histx.histories(events, 3))
+        have = {tuple(h) for h in H}
+        H += [h for h in histx.histories(EVENTS_WIDE, 2) if tuple(h) not in have]
     P = []
     B = 6
     slim = [{k: {'outcome': v['outcome'], 'text': v.get('text')} for k, v in outs[0].items()}]
@@ -300,8 +316,8 @@ def run_thorough(seed, budget=None):
         col.add(base + idx, P4[idx], tagged)
     if col.tasks < col.planned:
         col.capped = True
-    col.rule = ('explicit-state search over request histories, each replayed in one real process: ALL histories of length <= 3 over 15 events (unpruned), then '
-                'depth 4 with process-state pruning: one representative per distinct process-state digest reached at depth 3, extended by every event. The pruning '
+    col.rule = ('explicit-state search over request histories, each replayed in one real process: ALL histories of length <= 3 over 27 events (unpruned), '
+                'all of length <= 2 over 37 events (one more request per plant / reservoir / economics family, SUTRA, AGS, S-DAC-GT), then depth 4 with process-state pruning: one representative per distinct process-state digest reached at depth 3, extended by every event. The pruning '
                 'assumption (equal digest => equal futures) is checked on every digest collision at depth <= 2 against the executed depth-3 extensions')
     col.assumptions = ['functools memo tables and the pint registry are pure caches and excluded from the state comparison',
                        'depth-4 coverage is complete only under the checked assumption that the process-state vector captures every module-level mutable the pipeline reads']
